@@ -94,7 +94,7 @@ class World:
                 ref["progress"] = "{:.2%}".format(1.0 - REMAINING[kind] / 3)[:-1]
         elif kind.startswith("R"):
             ds = DS[0] if kind == "Ra" else DS[1]
-            val = f"{j}:{ds!r}".encode()
+            val = b"\xfb\xff\xbe\x00" + f"{j}:{ds!r}".encode()  # base64 of the first bytes uses '+' and '/' 
             rep.send_result(ds, val)
             if ref["registered"]:
                 ref["results"][ds] = val
